@@ -23,6 +23,7 @@ type authScriptC struct {
 	Mode    string                `json:"mode"`
 	Source  string                `json:"source"`
 	Form    string                `json:"form"`
+	Cache   bool                  `json:"cache"`
 	Kind    string                `json:"kind"`
 	ActHost string                `json:"acthost"`
 	Answers map[string][][]string `json:"answers"`
@@ -106,7 +107,7 @@ func init() {
 				if nredir == 0 && s.Form != "abs" {
 					continue // no redirect: the form does not show
 				}
-				k := s.Form + "|" + s.Kind + "|" + s.ActHost + "|" + s.Mode + "|" + s.Source + "|" + pat
+				k := fmt.Sprint(s.Cache) + "|" + s.Form + "|" + s.Kind + "|" + s.ActHost + "|" + s.Mode + "|" + s.Source + "|" + pat
 				byClass[k] = append(byClass[k], s)
 			}
 			keys := []string{}
@@ -215,7 +216,7 @@ func init() {
 		c.Set("trace_events", events)
 		c.Set("evaluations", len(scripts))
 		c.Set("distinct_nontrivial", len(scripts))
-		c.Set("rule", "scripts = per-edge output of spec/HttpAuth.tla for every finished request: answers (200 / 401 / redirect to any of 4 identities) per host up to MaxPerHost, x access mode {none, basic} x credential source {helper, URL userinfo} x spelling of Location {absolute URL, //host:port/path, /path}; a host whose last scripted answer is a redirect keeps redirecting; distinct scripts")
+		c.Set("rule", "scripts = per-edge output of spec/HttpAuth.tla for every finished request: answers (200 / 401 / redirect to any of 4 identities) per host up to MaxPerHost, x access mode {none, basic} x credential source {helper, URL userinfo} x spelling of Location {absolute URL, //host:port/path, /path} x in-process credential cache in front of the helper {off, on}; a host whose last scripted answer is a redirect keeps redirecting; distinct scripts")
 		for i := 0; i < len(scripts); i += len(scripts)/4 + 1 {
 			c.Sample(scripts[i])
 		}
